@@ -188,7 +188,36 @@ def a_optimize_compile():
     pt.compileTeal(pt.Seq(x.store(pt.Int(1)), x.load()), pt.Mode.Application, version=10, optimize=pt.OptimizeOptions(scratch_slots=True, frame_pointers=True))
 
 
+_PROBE_ADDR = "AAAAAAAAAAAAAAAAAAAAAAAAAAAAAAAAAAAAAAAAAAAAAAAAAAAAY5HFKQ"
+
+
+def a_namesakes():
+    """an unrelated program whose objects carry the NAMES (subroutine names, named-tuple field names, literal
+    texts, template names) the probes use for other things"""
+    @pt.Subroutine(pt.TealType.uint64)
+    def fact(a, b):
+        return a + b
+
+    @pt.Subroutine(pt.TealType.uint64)
+    def even(n):
+        return n % pt.Int(2)
+
+    class Pair(abi.NamedTuple):
+        hi: abi.Field[abi.Uint16]
+        lo: abi.Field[abi.Uint64]
+        extra: abi.Field[abi.String]
+    pr = Pair()
+    out16 = abi.Uint16()
+    e = pt.Seq(pr.decode(pt.Txn.application_args[0]), pr.hi.store_into(out16),
+               pt.Log(pt.Bytes("probe(uint64)void")), pt.Log(pt.Bytes(_PROBE_ADDR)), pt.Log(pt.Bytes("TMPL_PROBE")),
+               pt.Log(pt.Bytes("probe(uint64)void")), pt.Log(pt.Bytes(_PROBE_ADDR)), pt.Log(pt.Bytes("TMPL_PROBE")),
+               fact(even(pt.Int(1)), out16.get()))
+    pt.compileTeal(e, pt.Mode.Application, version=6, assembleConstants=True)
+    pt.compileTeal(e, pt.Mode.Application, version=8)
+
+
 ACTIVITIES = {
+    "namesakes": a_namesakes,
     "compile_v6": a_compile_v6, "compile_sub_v8": a_compile_sub_v8, "type_error": a_type_error,
     "version_too_low": a_version_too_low, "break_outside": a_break_outside, "too_many_slots": a_too_many_slots,
     "sub_raises_fp": a_sub_raises_fp, "sub_raises_scratch": a_sub_raises_scratch, "abi_sub_raises": a_abi_sub_raises,
@@ -229,6 +258,21 @@ def p_slots(version):
     return pt.compileTeal(pt.Seq(*[v.store(pt.Int(i)) for i, v in enumerate(vs)], d.set_index(vs[2]), d.store(pt.Int(9)), mv,
                                  pt.Pop(mv.value()), pt.If(mv.hasValue()).Then(vs[0].store(vs[5].load())), vs[0].load() + vs[3].load()),
                           pt.Mode.Application, version=version)
+
+
+def p_named_things(version):
+    """named tuple fields, method / address / template constants through the constant assembler"""
+    class Pair(abi.NamedTuple):
+        lo: abi.Field[abi.Uint64]
+        hi: abi.Field[abi.Uint16]
+    pr = Pair()
+    a, b = abi.Uint64(), abi.Uint16()
+    e = pt.Seq(pr.decode(pt.Txn.application_args[0]), pr.lo.store_into(a), pr.hi.store_into(b),
+               pt.Log(pt.MethodSignature("probe(uint64)void")), pt.Log(pt.Addr(_PROBE_ADDR)), pt.Log(pt.Tmpl.Bytes("TMPL_PROBE")),
+               pt.Log(pt.MethodSignature("probe(uint64)void")), pt.Log(pt.Addr(_PROBE_ADDR)), pt.Log(pt.Tmpl.Bytes("TMPL_PROBE")),
+               a.get() + b.get())
+    return (pt.compileTeal(e, pt.Mode.Application, version=version, assembleConstants=True) + "\n=====\n" +
+            pt.compileTeal(e, pt.Mode.Application, version=version))
 
 
 def p_same_expr_twice(version):
@@ -384,9 +428,26 @@ def s_abi(version, mid):
     return pt.compileTeal(pt.Seq(e, b.set("hi"), c.set(a, b), pt.Log(c.encode()), pt.Int(1)), pt.Mode.Application, version=version)
 
 
-SPLIT_PROBES = {"split_slots": s_slots, "split_subs": s_subs, "split_router": s_router, "split_abi": s_abi}
+def s_named(version, mid):
+    """a named tuple and constants are created, unrelated activity runs, then the fields are read and the
+    program is compiled (with and without the constant assembler)"""
+    class Pair(abi.NamedTuple):
+        lo: abi.Field[abi.Uint64]
+        hi: abi.Field[abi.Uint16]
+    pr = Pair()
+    a, b = abi.Uint64(), abi.Uint16()
+    m = pt.MethodSignature("probe(uint64)void")
+    mid()
+    e = pt.Seq(pr.decode(pt.Txn.application_args[0]), pr.lo.store_into(a), pr.hi.store_into(b), pt.Log(m), pt.Log(m),
+               pt.Log(pt.Addr(_PROBE_ADDR)), pt.Log(pt.Addr(_PROBE_ADDR)), a.get() + b.get())
+    return (pt.compileTeal(e, pt.Mode.Application, version=version, assembleConstants=True) + "\n=====\n" +
+            pt.compileTeal(e, pt.Mode.Application, version=version))
 
-PROBES = {"abi_main": p_abi_main, "recursive": p_recursive, "router": p_router, "slots": p_slots,
+
+SPLIT_PROBES = {"split_slots": s_slots, "split_subs": s_subs, "split_router": s_router, "split_abi": s_abi,
+                "split_named": s_named}
+
+PROBES = {"named_things": p_named_things, "abi_main": p_abi_main, "recursive": p_recursive, "router": p_router, "slots": p_slots,
           "same_expr_twice": p_same_expr_twice, "same_expr_probe_between": p_same_expr_probe_between,
           "router_twice": p_router_twice, "same_expr_one_compilation_object": p_same_compilation_twice}
 PROBE_VERSIONS = (6, 8)
